@@ -15,7 +15,7 @@ for c in "$dst"/harness/*/; do [ -f "$c/Cargo.toml" ] && cp "$wt/Cargo.lock" "$c
 export FX_REPO="$wt" CARGO_NET_OFFLINE=true
 echo "== $name: unit tests with the change: $(cd "$wt" && cargo test --offline 2>&1 | grep 'test result' | head -1)"
 for p in "$@"; do
-  echo "== $name $p"; (cd "$dst" && ./check "$p" --tier quick 2>&1 | grep -E "VIOLATION|KNOWN|quick:" | head -6)
+  echo "== $name $p"; (cd "$dst" && ./check "$p" --tier quick 2>&1 | grep -E "VIOLATION|KNOWN|quick:" | head -9)
   for r in $(cd "$dst" && ls replays 2>/dev/null | head -2); do echo "--- replay $r"; head -c 1200 "$dst/replays/$r"; echo; done
   rm -rf "$dst/replays"/*
 done
